@@ -1,6 +1,18 @@
 """Registered expression-level call-out shims (DESIGN.md 3.3).
 pattern: Python regex matched inside the function body text (DOTALL);
-replace: replacement template (re.expand syntax) -- a call to a shim fn defined in a prelude.
+replace: replacement template (re.expand syntax) -- a call to a shim fn defined in a prelude,
+or a type-checked structural rewrite.
 Every instance is recorded in the woven file (original text base64 in the marker) and
 listed in the evidence."""
-SHIMS = {}
+SHIMS = {
+    # HashSet<u32>::extend(range)  ->  call-out with spec  S' = S u [a,b)
+    'hs-extend-range': dict(pattern=r'\b(self\.\w+)\.extend\(((?:[^();]|\([^()]*\))*)\);', replace=r'hs_extend_range(&mut \1, \2);',
+                            spec="forall v: S'.contains(v) == (S.contains(v) || a <= v < b)"),
+    # Box<dyn Iterator<Item = u32>> holding only Range<u32> values -> the Range itself.
+    # Sound iff every boxed expression is a Range<u32>; rustc re-checks that on the woven text
+    # (a non-Range arm makes the woven file fail to compile -> exit 2, never an alarm).
+    'unbox-range-type': dict(pattern=r'Box<dyn Iterator<Item = u32>>', replace=r'std::ops::Range<u32>',
+                             spec='type-checked rewrite; no spec'),
+    'unbox-range-new': dict(pattern=r'Box::new\(((?:[^()]|\((?:[^()]|\([^()]*\))*\))*)\)', replace=r'\1',
+                            spec='type-checked rewrite; no spec'),
+}
